@@ -1,4 +1,5 @@
 import KmipProofs.DecodeBasic
+import KmipProofs.IoStackLemmas
 /-
   C03 — Decode is total and safe on arbitrary bytes.
   Totality: `decodeTop` (KmipModel/Decode.lean) is a total Lean function accepted by structural recursion on the schema tree,
@@ -33,5 +34,22 @@ theorem C03_window_bounded (d : Dec) (expected : Nat) : (limitDec d expected).wi
 /-- the slice loop terminates within its fuel: it is defined by structural recursion on the fuel -/
 theorem C03_slice_loop_total (step : Dec → Outcome (Val × Nat × Dec)) (ftag expected n : Nat) (dd : Dec) :
     sliceLoop step ftag expected 0 dd n = .err .other := rfl
+
+/-- "Reading from an unbuffered byte source it never consumes bytes beyond the outermost item's declared end", on the real
+    reader stack (KmipModel/IoStack.lean): the top-level structure of declared length `n` is read through
+    `NewDecoder(io.LimitReader(src, n))`; whatever that nested decoder does - any reads, any depth of further nesting, all the
+    read-ahead its 4096-byte bufio cares to do - the source underneath has handed out a prefix `x` of its bytes with
+    `|x| ≤ n`: read-ahead stops at the declared end. -/
+theorem C03_stack_no_overread (s : Io.Stack) (n : Nat) (t : Io.Stack) (hi : s.Inv) (hr : Io.Reach (s.nested n) t) :
+    ∃ s' n' p e x, t = .buf (.lim s' n') 4096 p e ∧ s.content = x ++ s'.content ∧ x.length ≤ n ∧ Io.Reach s s' := by
+  obtain ⟨i', p', e', rfl, ri⟩ := Io.reach_buf (by omega) hr
+  obtain ⟨s', n', x, rfl, rs, _, cs, ln, _⟩ := Io.reach_lim ri hi
+  exact ⟨s', n', p', e', x, rfl, cs, by omega, rs⟩
+
+/-- non-vacuity: the Decoder's nested reader over a transport that delivers 7 bytes in one read, structure of 4 bytes: after
+    a one-byte ReadFull the bufio has fetched the whole window - 4 bytes, not 7 -/
+example : (match ((Io.Stack.src ⟨[[1, 2, 3, 4, 5, 6, 7]], .eof, false⟩).nested 4).readFull 1 with
+    | .ok (b, .buf (.lim (.src s') n') _ p _) => (b, p, n', s'.flat)
+    | _ => ([], [], 99, [])) = ([1], [2, 3, 4], 0, [5, 6, 7]) := by rfl
 
 end Kmip
